@@ -63,7 +63,7 @@ fn ivd(name: &str, ty: Type) -> Node<InputValueDefinition> {
 }
 
 /// One edit referencing `scalar`; returns a description. Every edit keeps a valid schema valid.
-fn edit(c: &mut Choices, s: &mut Schema, scalar: &str, k: usize) -> String {
+pub(crate) fn edit(c: &mut Choices, s: &mut Schema, scalar: &str, k: usize) -> String {
     let mut objects: Vec<String> = s.types.iter().filter(|(n, t)| matches!(t, ExtendedType::Object(_)) && !n.starts_with("__")).map(|(n, _)| n.to_string()).collect();
     objects.sort();
     let mut inputs: Vec<String> = s.types.iter().filter(|(_, t)| matches!(t, ExtendedType::InputObject(_))).map(|(n, _)| n.to_string()).collect();
